@@ -84,6 +84,18 @@ impl<P> ViewLoc<P> {
     }
 }
 
+impl<P: Prefix> ViewLoc<P> {
+    /// Copy the location without requiring `P: Clone`.
+    fn duplicate(&self) -> Self {
+        match self {
+            ViewLoc::Node(i) => ViewLoc::Node(*i),
+            ViewLoc::Virtual(p, i) => {
+                ViewLoc::Virtual(P::from_repr_len(p.repr(), p.prefix_len()), *i)
+            }
+        }
+    }
+}
+
 impl<P: Copy, T> Copy for TrieView<'_, P, T> {}
 
 impl<P: Clone, T> Clone for TrieView<'_, P, T> {
@@ -146,6 +158,23 @@ where
     /// ```
     pub fn find(&self, prefix: P) -> Option<TrieView<'a, P, T>> {
         let mut idx = self.loc.idx();
+        // a prefix that covers the root of this view addresses the entire view.
+        if prefix.contains(self.prefix()) {
+            return Some(Self {
+                table: self.table,
+                loc: self.loc.duplicate(),
+            });
+        }
+        // a prefix between a virtual root and the node below it is a virtual node on the same edge.
+        if matches!(self.loc, ViewLoc::Virtual(_, _)) {
+            let child_p = &self.table[idx].prefix;
+            if prefix.contains(child_p) && !prefix.eq(child_p) {
+                return Some(Self {
+                    table: self.table,
+                    loc: ViewLoc::Virtual(prefix, idx),
+                });
+            }
+        }
         loop {
             match self.table.get_direction_for_insert(idx, &prefix) {
                 DirectionForInsert::Enter { next, .. } => {
@@ -261,6 +290,10 @@ where
     pub fn find_lpm(&self, prefix: &P) -> Option<TrieView<'a, P, T>> {
         let mut idx = self.loc.idx();
         let mut best_match = None;
+        // only prefixes below the root of this view can be covered by one of its entries.
+        if !self.table[idx].prefix.contains(prefix) {
+            return None;
+        }
         loop {
             if self.table[idx].value.is_some() {
                 best_match = Some(idx);
@@ -694,6 +727,18 @@ where
         // is still not covered by any other view), while dropping `self`.
 
         let mut idx = self.loc.idx();
+        // a prefix that covers the root of this view addresses the entire view.
+        if prefix.contains(self.prefix()) {
+            return Ok(self);
+        }
+        // a prefix between a virtual root and the node below it is a virtual node on the same edge.
+        if matches!(self.loc, ViewLoc::Virtual(_, _)) {
+            let child_p = &self.table[idx].prefix;
+            if prefix.contains(child_p) && !prefix.eq(child_p) {
+                let new_loc = ViewLoc::Virtual(prefix, idx);
+                return unsafe { Ok(Self::new(self.table, new_loc)) };
+            }
+        }
         loop {
             match self.table.get_direction_for_insert(idx, &prefix) {
                 DirectionForInsert::Enter { next, .. } => {
@@ -805,6 +850,10 @@ where
     pub fn find_lpm(self, prefix: &P) -> Result<Self, Self> {
         let mut idx = self.loc.idx();
         let mut best_match = None;
+        // only prefixes below the root of this view can be covered by one of its entries.
+        if !self.table[idx].prefix.contains(prefix) {
+            return Err(self);
+        }
         loop {
             if self.table[idx].value.is_some() {
                 best_match = Some(idx);
